@@ -348,7 +348,7 @@ package ipfscluster
 //@   property C10
 //@   requires forall p peer.ID :: in(p, dom(dc.cache)) ==> dc.cache[p] == uf("keyHash", "distance", p)
 //@   ensures [the-hash-of-the-asked-peer] res == uf("keyHash", "distance", id)
-//@   ensures [the-memo-stays-a-table-of-hashes] forall p peer.ID :: in(p, dom(dc.cache)) ==> dc.cache[p] == uf("keyHash", "distance", p)
+//@   ensures [the-memo-stays-a-table-of-hashes] forall p peer.ID :: in(p, dom(final_dc.cache)) ==> final_dc.cache[p] == uf("keyHash", "distance", p)
 //@   modifies dc.cache
 //@ func (dc distanceChecker) isClosest
 //@   opts trusted
